@@ -168,3 +168,28 @@ def pair_geometry(rng, family='dyadic', proc='auto', max_src=40, margin=(0, 3), 
     src = Grid(sx0, sytop, ps, ps, sw, sh, unit)
     ref = Grid(rx0, rytop, pr, pr, need_w, need_h, unit)
     return src, ref
+
+
+def tie_geometry(rng, max_src=36):
+    """
+    Dyadic source-in-reference geometry whose reference pixel edges fall exactly on half source pixels (ratio 2:1 at an odd
+    half-pixel offset, 3:1 at half a source pixel, or 5:2): every block seam on the reference grid is a rounding tie on
+    the source grid.
+    """
+    unit = Fraction(1, 8)
+    kind = rng.choice(['2:1', '2:1', '3:1', '5:2'])
+    ps = rng.choice([4, 8, 12])
+    if kind == '2:1':
+        pr, off = 2 * ps, ps // 2 + ps * rng.randint(0, 3)
+    elif kind == '3:1':
+        pr, off = 3 * ps, ps // 2 + ps * rng.randint(0, 2)
+    else:
+        pr, off = 5 * ps // 2, ps * rng.randint(0, 2)      # boundaries at k * 2.5 source pixels
+    big = rng.choice([8 * 20_000, 8 * 6_500_000])
+    rx0, rytop = big + rng.randrange(-20, 20) * pr + 3, big // 2 + rng.randrange(-20, 20) * pr + 5
+    ml, mt = rng.randint(1, 2), rng.randint(1, 2)
+    sx0, sytop = rx0 + ml * pr + off, rytop - mt * pr - off
+    sw, sh = rng.randint(20, max_src), rng.randint(20, max_src)
+    rw = -(-(sx0 + sw * ps - rx0) // pr) + rng.randint(1, 2)
+    rh = -(-(rytop - (sytop - sh * ps)) // pr) + rng.randint(1, 2)
+    return Grid(sx0, sytop, ps, ps, sw, sh, unit), Grid(rx0, rytop, pr, pr, rw, rh, unit)
